@@ -8,6 +8,7 @@ CONSTANTS
   Corrs = {"none"}
   Sts = {"ok", "fail"}
   Ns = {1}
+  Rgs = {1}
   Ts = {"tx"}
   MaxId = 2
   MaxTx = 3
